@@ -58,8 +58,8 @@ Proof.
   destruct q as [rel pas deps st role sup re ini].
   unfold server_config, server_options, newSpawnConfig, init_of, role_in. cbn [q_relocatable q_passivation q_deps q_stash q_role q_supervisor q_reentrancy q_initTimeout].
   destruct ini as [w|]; destruct rel; destruct st; destruct re as [r|]; destruct role as [x|]; destruct sup as [s|]; destruct deps as [|d0 ds];
-    try destruct (x =? 0)%nat; cbn [app fold_left apply_spawn option_map default_config];
-    cbn [c_supervisor c_passivation c_reentrancy c_stash c_role c_deps c_initTimeout c_relocatable option_map];
+    try destruct (x =? 0)%nat;
+    lazy beta iota zeta delta [app fold_left apply_spawn option_map default_config c_supervisor c_passivation c_reentrancy c_stash c_role c_deps c_initTimeout c_relocatable];
     repeat split; reflexivity.
 Qed.
 
@@ -77,8 +77,8 @@ Proof.
   destruct q as [rel pas deps st role sup re ini].
   unfold wire_options, newSpawnConfig, init_of, role_in. cbn [q_relocatable q_passivation q_deps q_stash q_role q_supervisor q_reentrancy q_initTimeout].
   destruct ini as [w|]; destruct st; destruct re as [r|]; destruct role as [x|]; destruct sup as [s|]; destruct deps as [|d0 ds];
-    try destruct (x =? 0)%nat; cbn [app fold_left apply_spawn option_map default_config];
-    cbn [c_supervisor c_passivation c_reentrancy c_stash c_role c_deps c_initTimeout c_relocatable option_map];
+    try destruct (x =? 0)%nat;
+    lazy beta iota zeta delta [app fold_left apply_spawn option_map default_config c_supervisor c_passivation c_reentrancy c_stash c_role c_deps c_initTimeout c_relocatable];
     repeat split; reflexivity.
 Qed.
 
@@ -103,7 +103,7 @@ Proof.
   destruct (server_config_fields (request_hostport c)) as (A & B & C & D & E & F & G & H).
   unfold cfg_equiv, role_of. rewrite A, B, C, D, E, F, G, H. clear A B C D E F G H.
   unfold request_hostport. cbn [q_relocatable q_passivation q_deps q_stash q_role q_supervisor q_reentrancy q_initTimeout].
-  repeat split.
+  refine (conj _ (conj _ (conj _ (conj _ (conj _ (conj _ (conj _ _))))))); auto.
   - apply osup_roundtrip. unfold cfg_no_backoff in Hb. destruct (c_supervisor c); auto.
   - apply passivation_roundtrip, Wp.
   - destruct (c_reentrancy c) as [r|]; simpl; auto. f_equal. apply reentrancy_roundtrip; tauto.
@@ -191,7 +191,7 @@ Proof.
   unfold pid_equiv, configPID. cbn [p_supervisor p_passivation p_reentrancy p_stash p_role p_deps p_initTimeout p_relocatable].
   rewrite A, B, C, D, E, F, G, H. clear A B C D E F G H.
   unfold toSerialize. cbn [q_relocatable q_passivation q_deps q_stash q_role q_supervisor q_reentrancy q_initTimeout option_map].
-  repeat split; auto.
+  refine (conj _ (conj _ (conj _ (conj _ (conj _ (conj _ (conj _ _))))))); auto.
   - rewrite Hs in *. apply supervisor_roundtrip_partial; auto.
   - rewrite passivation_roundtrip by (destruct (p_passivation p); simpl; auto).
     destruct (p_passivation p); auto; destruct Wp.
